@@ -44,11 +44,11 @@ Section LogAux.
   Lemma reads_det : forall hf st es r, Reads bits crc hf st es r ->
     forall es' r', Reads bits crc hf st es' r' -> es' = es /\ r' = r.
   Proof.
-    induction 1 as [st H|st e H|st e st1 es r H HR IH]; intros es' r' H'.
+    induction 1 as [st H|st e st' H|st e st1 es r H HR IH]; intros es' r' H'.
     - inversion H'; subst; try congruence. split; reflexivity.
-    - inversion H' as [st0 H0|st0 e0 H0|st0 e0 st2 es0 r0 H0 HR0]; subst; try congruence.
+    - inversion H' as [st0 H0|st0 e0 st0' H0|st0 e0 st2 es0 r0 H0 HR0]; subst; try congruence.
       rewrite H in H0. inversion H0; subst. split; reflexivity.
-    - inversion H' as [st0 H0|st0 e0 H0|st0 e0 st2 es0 r0 H0 HR0]; subst; try congruence.
+    - inversion H' as [st0 H0|st0 e0 st0' H0|st0 e0 st2 es0 r0 H0 HR0]; subst; try congruence.
       rewrite H in H0. inversion H0; subst.
       destruct (IH _ _ HR0) as [-> ->]. split; reflexivity.
   Qed.
@@ -62,9 +62,9 @@ Section LogAux.
   Proof.
     intros hf fuel. induction fuel as [|fuel IH]; intros st es r H Hr; cbn [read_all] in H.
     - inversion H; subst. contradiction.
-    - destruct (next bits crc hf st) as [| | |e st1] eqn:E.
+    - destruct (next bits crc hf st) as [|e0 st0| |e st1] eqn:E.
       + inversion H; subst. now apply ReadsEnd.
-      + inversion H; subst. now apply ReadsErr.
+      + inversion H; subst. eapply ReadsErr; eassumption.
       + inversion H; subst. contradiction.
       + destruct (read_all bits crc hf fuel st1) as [es1 r1] eqn:E1.
         inversion H; subst. eapply ReadsEntry; [exact E|]. apply IH; [exact E1|exact Hr].
@@ -120,9 +120,9 @@ Section LogAux.
     forall f2, (length (r_rest st) < f1)%nat -> (length (r_rest st) < f2)%nat ->
     Reads bits crc f2 st es r.
   Proof.
-    induction 1 as [st H|st e H|st e st1 es r H HR IH]; intros f2 H1 H2.
+    induction 1 as [st H|st e st' H|st e st1 es r H HR IH]; intros f2 H1 H2.
     - apply ReadsEnd. rewrite <- H. symmetry. now apply next_fuel.
-    - apply ReadsErr. rewrite <- H. symmetry. now apply next_fuel.
+    - apply (ReadsErr bits crc f2 st e st'). rewrite <- H. symmetry. now apply next_fuel.
     - pose proof (next_progress bits crc f1 st H1) as P. rewrite H in P. destruct P as [_ P].
       eapply ReadsEntry.
       + rewrite <- H. symmetry. now apply next_fuel.
